@@ -42,6 +42,12 @@ def fmtOf (s : List Char) : List Char :=
   else if (s.filter (· == ':')).length ≥ 2 then fmtHMS
   else fmtHM
 
+/-- the layout of the model's endpoint tuples: which attribute of the Python object each position holds -/
+def attrLayout : Interval.Kind → List String
+  | .time => ["hour", "minute", "second", "microsecond"]
+  | .date => ["month", "day"]
+  | .datetime => ["year", "month", "day", "hour", "minute", "second", "microsecond"]
+
 /-- the model's library functions as primitives; `tzAware` = what `datetime.fromisoformat` does with a string
     that has a zone designator after a well-formed date (returns an aware value / raises) – not modelled -/
 def modelPrims (tzAware : Bool) : IvPrims where
@@ -69,7 +75,10 @@ def modelPrims (tzAware : Bool) : IvPrims where
   timeCtor l := (intsToNats l).bind fun e => checkEp .time (padZeros 4 e)
   dateCtor y l := if y = (Gen.dummyYear : Int) then (intsToNats l).bind fun e => checkEp .date e else .unsupported
   datetimeCtor l := (intsToNats l).bind fun e => checkEp .datetime (padZeros 7 e)
-  exportDt e := e.map Int.ofNat
+  getattr k name e :=
+    match ((attrLayout k).zip e).lookup name with
+    | some v => (v : Int)
+    | none => 0
   field name e :=
     if name == "month" then (e.getD 0 0 : Nat) else if name == "day" then (e.getD 1 0 : Nat)
     else if name == "year" then (Gen.dummyYear : Nat) else 0      -- only dates (dummy year) have their fields read
@@ -521,12 +530,12 @@ theorem pyInt_nondigits (c : Bool) {g : List Char} (h : g.all isDigit = false) :
 
 theorem datetime_seq_small (c : Bool) {y mo d : Nat} {tm : Ep} (hy : y < 10000) (hmo : mo < 10000)
     (hd : d < 10000) (ht : validTime tm = true) :
-    convert_datetime_seq (modelPrims c) ((y : Int) :: (mo : Int) :: (d : Int) :: (modelPrims c).exportDt tm) =
+    convert_datetime_seq (modelPrims c) ((y : Int) :: (mo : Int) :: (d : Int) :: export_dt (modelPrims c) .time tm) =
       checkEp .datetime (y :: mo :: d :: tm) := by
   obtain ⟨hh, mi, s, us, rfl, h1, h2, h3, h4⟩ := validTime_shape ht
   have := intsToNats_ofNat [y, mo, d, hh, mi, s, us] (by intro v hv; simp at hv; omega)
   simp only [List.map_cons, List.map_nil, Int.ofNat_eq_natCast] at this
-  simp [convert_datetime_seq, modelPrims, this, padZeros]
+  simp [convert_datetime_seq, export_dt, dtAttrs, attrLayout, List.lookup, modelPrims, this, padZeros]
 
 theorem convert_str_datetime_eq (c : Bool) (s : List Char) :
     convert_str (modelPrims c) s true = convertDateTimeCore s := by
@@ -928,12 +937,107 @@ theorem interval_contains_eq (k : Interval.Kind) (iv : List Range) (x : Ep) :
     interval_contains k iv x = Interval.contains k iv x := by
   simp only [interval_contains, Interval.contains, interval_cmp_eq]
 
-theorem as_list_eq (c : Bool) (k : Interval.Kind) (iv : List Range) :
+/-- `export_dt` of an object = its tuple in the model's layout (`_ATTRS` lists the attributes in that order) -/
+theorem export_dt_eq (c : Bool) (k : Interval.Kind) {e : Ep} (h : validEp k e = true) :
+    export_dt (modelPrims c) k e = e.map Int.ofNat := by
+  cases k with
+  | time =>
+    obtain ⟨hh, m, s, us, rfl, -⟩ := validTime_shape h
+    simp [export_dt, dtAttrs, attrLayout, List.lookup, modelPrims]
+  | date =>
+    obtain ⟨mo, d, rfl, -⟩ := validDate_shape h
+    simp [export_dt, dtAttrs, attrLayout, List.lookup, modelPrims]
+  | datetime =>
+    obtain ⟨y, mo, d, hh, mi, s, us, rfl, -⟩ := validDateTime_shape h
+    simp [export_dt, dtAttrs, attrLayout, List.lookup, modelPrims]
+
+theorem exportOf_eq (c : Bool) (k : Interval.Kind) {e : Ep} (h : validEp k e = true) :
+    exportOf (modelPrims c) k e = e.map Int.ofNat := by
+  cases k <;> exact export_dt_eq c _ h
+
+theorem as_list_eq (c : Bool) (k : Interval.Kind) (iv : List Range)
+    (hv : ∀ r ∈ iv, validEp k r.1 = true ∧ validEp k r.2 = true) :
     Gen.TrIv.as_list (modelPrims c) k iv = (asList iv).map fun r => r.map fun e => e.map Int.ofNat := by
   simp only [Gen.TrIv.as_list, asList, List.map_map]
-  congr 1
-  funext r
-  cases k <;> rfl
+  apply List.map_congr_left
+  intro r hr
+  simp [exportOf_eq c k (hv r hr).1, exportOf_eq c k (hv r hr).2]
+
+/-! ### `range_endpoints` -/
+
+theorem mem_setAdd (s : List Ep) (e x : Ep) : x ∈ setAdd s e ↔ x ∈ s ∨ x = e := by
+  unfold setAdd
+  split
+  · next h =>
+    have : e ∈ s := by simpa using h
+    constructor
+    · intro hx; exact Or.inl hx
+    · rintro (hx | hx)
+      · exact hx
+      · rw [hx]; exact this
+  · simp
+
+theorem nodup_setAdd (s : List Ep) (e : Ep) (h : s.Nodup) : (setAdd s e).Nodup := by
+  unfold setAdd
+  split
+  · exact h
+  · next hc =>
+    have : e ∉ s := by simpa using hc
+    rw [List.nodup_append]
+    refine ⟨h, by simp, ?_⟩
+    intro a ha b hb
+    simp at hb
+    rw [hb]; intro e'; exact this (e' ▸ ha)
+
+/-- a loop that adds the start and the stop of every range (in whatever order) to a set -/
+theorem fold_endpoints (f : List Ep → Range → List Ep)
+    (hn : ∀ acc r, acc.Nodup → (f acc r).Nodup)
+    (hm : ∀ acc r x, x ∈ f acc r ↔ (x ∈ acc ∨ x = r.1 ∨ x = r.2)) (iv : List Range) (acc : List Ep)
+    (hacc : acc.Nodup) :
+    (iv.foldl f acc).Nodup ∧ ∀ x, x ∈ iv.foldl f acc ↔ x ∈ acc ∨ x ∈ rangeEndpoints iv := by
+  induction iv generalizing acc with
+  | nil => simp [rangeEndpoints, hacc]
+  | cons r rs ih =>
+    obtain ⟨n, m⟩ := ih (f acc r) (hn acc r hacc)
+    refine ⟨n, fun x => ?_⟩
+    simp only [List.foldl_cons]
+    rw [m x, hm]
+    simp only [rangeEndpoints, List.flatMap_cons, List.mem_append, List.mem_cons, List.not_mem_nil, or_false]
+    constructor
+    · rintro ((h | h | h) | h)
+      · exact Or.inl h
+      · exact Or.inr (Or.inl (Or.inl h))
+      · exact Or.inr (Or.inl (Or.inr h))
+      · exact Or.inr (Or.inr h)
+    · rintro (h | (h | h) | h)
+      · exact Or.inl (Or.inl h)
+      · exact Or.inl (Or.inr (Or.inl h))
+      · exact Or.inl (Or.inr (Or.inr h))
+      · exact Or.inr h
+
+theorem fold_endpoints_nil (f : List Ep → Range → List Ep)
+    (hn : ∀ acc r, acc.Nodup → (f acc r).Nodup)
+    (hm : ∀ acc r x, x ∈ f acc r ↔ (x ∈ acc ∨ x = r.1 ∨ x = r.2)) (iv : List Range) :
+    (iv.foldl f []).Nodup ∧ ∀ x, x ∈ iv.foldl f [] ↔ x ∈ rangeEndpoints iv := by
+  have := fold_endpoints f hn hm iv [] List.nodup_nil
+  refine ⟨this.1, fun x => ?_⟩
+  have h := this.2 x
+  simp only [List.not_mem_nil, false_or] at h
+  exact h
+
+/-- the translated `range_endpoints` is the set of all starts and stops -/
+theorem range_endpoints_eq (c : Bool) (k : Interval.Kind) (iv : List Range) :
+    (Gen.TrIv.range_endpoints (modelPrims c) k iv).Nodup ∧
+    ∀ x, x ∈ Gen.TrIv.range_endpoints (modelPrims c) k iv ↔ x ∈ rangeEndpoints iv := by
+  unfold Gen.TrIv.range_endpoints
+  refine fold_endpoints_nil _ ?_ ?_ iv
+  · intro acc r h
+    obtain ⟨a, b⟩ := r
+    exact nodup_setAdd _ _ (nodup_setAdd _ _ h)
+  · intro acc r x
+    obtain ⟨a, b⟩ := r
+    simp only [mem_setAdd]
+    grind
 
 theorem pyJoin_eq_joinSp (l : List (List Char)) : pyJoin [' '] l = joinSp l := by
   induction l with
